@@ -173,6 +173,22 @@ theorem failed_op_restores_fixed (s : Ctx) (op : Op) (e : Nat) (s' : Ctx) (hq : 
       rw [← this, ← this]; exact h2
     exact ⟨obs_of_cores h3, hash_of_cores h3⟩
 
+/-- what both variants give back in full: source, implemented flag, features, resolved imports of every module — with a NULL
+    `features` argument, or with any argument for the code with fixes/F4.diff -/
+theorem failed_op_restores_cores (s : Ctx) (op : Op) (e : Nat) (s' : Ctx) (hq : Quiescent s)
+    (hf : featArg op = none ∨ s.cfg2.restoreFeats = true) (hrun : run s op = (.error e, s')) :
+    s'.mods.map Mod.core = s.mods.map Mod.core := by
+  have hcm : ∀ l : List Mod, l.map (coreM none) = l.map Mod.core := fun l =>
+    List.map_congr_left (fun m _ => coreM_none m)
+  rcases run_error hrun with hm | hm
+  · rw [hm]
+  · rw [hm, ← hcm, ← hcm]
+    rcases hf with h | h
+    · exact revert_cores hq.noCreating hq.noImplementing hq.lrefs
+        (inv_restoreFeats (op := op) hq.noCreating hq.noImplementing hq.keys (pres_forward_none op h s ⟨rfl, hq.keys, hq.flags⟩))
+    · exact revert_cores hq.noCreating hq.noImplementing hq.lrefs
+        (inv_restored op hq.noCreating hq.noImplementing hq.keys hq.flags h)
+
 private theorem untouched_init {s : Ctx} (hq : Quiescent s) :
     Untouched (s.mods.map fun m => (m.key, m.compiled)) [] s := by
   refine ⟨?_, hq.noImplementing, hq.keys⟩
